@@ -33,7 +33,7 @@ type C06Shape struct {
 	Kind      string `json:"kind"`                // sign, multisign, att, atts, prop
 	ByKey     bool   `json:"by_key"`              // addressing
 	Lock      string `json:"lock"`                // unlocked, locked-known, locked-unknown (applies to account 1, or the only account)
-	Rec       string `json:"rec"`                 // none, valid, badlen, garbage, empty-gob (record planted under the key of account 1 / the only one)
+	Rec       string `json:"rec"`                 // none, valid, refusing-first, or one of c06Undecodable (record planted under the key of account 1 / the only one)
 	Malformed string `json:"malformed,omitempty"` // data31, domain31: hashing fails after approval
 	Closed    bool   `json:"closed,omitempty"`    // store closed before the request
 }
@@ -234,6 +234,14 @@ func (r *c06Rig) run(shape C06Shape, c *dfs.Chooser) (obs c06Obs, viols []string
 		rec = []byte{1, 1, 0, 0}
 	case "garbage":
 		rec = []byte{0x7f, 0x03, 0xff, 0x00, 0x12, 0x34}
+	case "empty":
+		rec = []byte{}
+	case "version-only":
+		rec = []byte{1}
+	case "v1-short":
+		rec = []byte{1, 0, 0, 0, 0, 0, 0, 0, 0, 1, 0, 0, 0, 0, 0, 0}
+	case "v1-long":
+		rec = []byte{1, 0, 0, 0, 0, 0, 0, 0, 0, 1, 0, 0, 0, 0, 0, 0, 0, 0}
 	}
 	if shape.Rec == "refusing-first" {
 		// Position 0 of a batch is refused by the rules (its stored watermark is far ahead); the later positions are
@@ -414,11 +422,8 @@ func (r *c06Rig) run(shape C06Shape, c *dfs.Chooser) (obs c06Obs, viols []string
 	if shape.Lock == "locked-unknown" {
 		mark(target, "the account is locked and no passphrase is known")
 	}
-	if (shape.Rec == "badlen" || shape.Rec == "garbage") && (shape.Kind == "att" || shape.Kind == "prop") {
-		mark(target, "the slashing-protection record cannot be decoded")
-	}
-	if (shape.Rec == "badlen" || shape.Rec == "garbage") && shape.Kind == "atts" {
-		mark(target, "the slashing-protection record cannot be decoded")
+	if c06Undecodable[shape.Rec] && (shape.Kind == "att" || shape.Kind == "prop" || shape.Kind == "atts") {
+		mark(target, "the slashing-protection record cannot be decoded ("+shape.Rec+")")
 	}
 	if shape.Malformed != "" {
 		for i := 0; i < n; i++ {
@@ -439,6 +444,10 @@ func (r *c06Rig) run(shape C06Shape, c *dfs.Chooser) (obs c06Obs, viols []string
 	return obs, viols, nil
 }
 
+// c06Undecodable are the planted records no version of the record format accepts: too short for the format byte they
+// carry, too long, no bytes at all, or bytes that are neither a version-1 record nor a gob stream.
+var c06Undecodable = map[string]bool{"badlen": true, "garbage": true, "empty": true, "version-only": true, "v1-short": true, "v1-long": true}
+
 func c06Shapes(tier string) []C06Shape {
 	var shapes []C06Shape
 	for _, kind := range []string{"sign", "multisign", "att", "atts", "prop"} {
@@ -450,8 +459,9 @@ func c06Shapes(tier string) []C06Shape {
 				shapes = append(shapes, C06Shape{Kind: kind, ByKey: byKey, Lock: "unlocked", Rec: "refusing-first"})
 			}
 			if kind != "sign" && kind != "multisign" {
-				shapes = append(shapes, C06Shape{Kind: kind, ByKey: byKey, Lock: "unlocked", Rec: "badlen"})
-				shapes = append(shapes, C06Shape{Kind: kind, ByKey: byKey, Lock: "unlocked", Rec: "garbage"})
+				for _, rec := range []string{"badlen", "garbage", "empty", "version-only", "v1-short", "v1-long"} {
+					shapes = append(shapes, C06Shape{Kind: kind, ByKey: byKey, Lock: "unlocked", Rec: rec})
+				}
 			}
 			shapes = append(shapes, C06Shape{Kind: kind, ByKey: byKey, Lock: "unlocked", Rec: "none", Closed: true})
 			shapes = append(shapes, C06Shape{Kind: kind, ByKey: byKey, Lock: "unlocked", Rec: "none", Malformed: "domain31"})
